@@ -133,7 +133,8 @@ def judge_reply(block, key):
             continue
         if ln[:1] in (b' ', b'\t'):
             if headers:
-                headers[-1][1] += b' ' + ln.strip()
+                # obs-fold = one SP (RFC 7230 3.2.4); OWS around the whole field value is not part of it
+                headers[-1][1] = (headers[-1][1] + b' ' + ln.strip(b' \t')).strip(b' \t')
             continue
         name, colon, value = ln.partition(b':')
         if not colon:
